@@ -435,6 +435,62 @@ func vfOverlapCase() string {
 	return "tick-in-send " + res
 }
 
+// stopccn: a tunnel established through Dispatch with its real runner receives SCCCN and then StopCCN
+// (accepted, Ns in order).  Is the StopCCN ever acknowledged?  The harness does not tick the channel itself:
+// only what production goroutines send within 700 ms (3.5 x zlbDelay) counts.
+func vfStopCCNCase() string {
+	c := New(logger.Get("l2tp"))
+	peer := net.IPv4(10, 0, 0, 2).To4()
+	local := net.IPv4(10, 0, 0, 1).To4()
+	acked := make(chan struct{}, 8)
+	c.SetSendControlFn(func(localIP, peerIP net.IP, lp, pp uint16, h l2tppkt.Header, body []byte) error {
+		if h.Nr == 3 {
+			select {
+			case acked <- struct{}{}:
+			default:
+			}
+		}
+		return nil
+	})
+	c.SetLNSConfigResolver(func(string) (LNSConfig, bool) {
+		return LNSConfig{LocalHostname: "lns", ReceiveWindowSize: 16, HelloInterval: time.Hour}, true
+	})
+	dispatch := func(tid, ns, nr uint16, body []byte) error {
+		h := l2tppkt.NewControl(tid, 0, ns, nr)
+		wire := append(h.AppendTo(nil, len(body)), body...)
+		pkt := &dataplane.ParsedPacket{
+			Protocol: models.ProtocolL2TP,
+			IPv4:     &layers.IPv4{SrcIP: peer, DstIP: local},
+			UDP:      &layers.UDP{SrcPort: 1701, DstPort: 1701},
+		}
+		pkt.UDP.Payload = wire
+		return c.Dispatch(pkt)
+	}
+	body := l2tppkt.BuildSCCRQ(l2tppkt.SCCRQParams{HostName: "lac", LocalTunnelID: 99, ReceiveWindowSize: 16, FramingCaps: 3})
+	if err := dispatch(0, 0, 0, body); err != nil {
+		return "sccrq-failed"
+	}
+	var t *Tunnel
+	c.mu.RLock()
+	for _, x := range c.tunnels {
+		t = x
+	}
+	c.mu.RUnlock()
+	if t == nil {
+		return "no-tunnel"
+	}
+	_ = dispatch(t.LocalID, 1, 1, l2tppkt.BuildSCCCN(nil))
+	_ = dispatch(t.LocalID, 2, 1, l2tppkt.BuildStopCCN(99, 1, 0, ""))
+	res := "acked=0"
+	select {
+	case <-acked:
+		res = "acked=1"
+	case <-time.After(700 * time.Millisecond):
+	}
+	c.stopTunnelRunner(t.PeerIP, t.LocalID)
+	return fmt.Sprintf("stopccn nr=%d %s", t.Channel.Nr(), res)
+}
+
 func vfDispGuard(line string) string {
 	done := make(chan string, 1)
 	go func() {
@@ -446,6 +502,8 @@ func vfDispGuard(line string) string {
 		f := strings.Fields(line)
 		if len(f) >= 2 && f[0] == "disp" {
 			done <- vfDispCase(f[1:])
+		} else if len(f) == 1 && f[0] == "stopccn" {
+			done <- vfStopCCNCase()
 		} else if len(f) == 1 && f[0] == "overlap" {
 			done <- vfOverlapCase()
 		} else if len(f) == 5 && f[0] == "rws" {
